@@ -304,7 +304,7 @@ func (cs *c09Case) key() string {
 // c09Check runs one fault placement and evaluates both comparisons. base = the fault-free run (computed if nil).
 func c09Check(ctx *Ctx, pl *fwPool, idx int, cs c09Case, base *c09Base) {
 	fail := func(kind, class, detail string, impl, model interface{}) {
-		ctx.Rep.Fail(hx.Failure{Kind: kind, Class: class, Detail: detail, Case: cs, Impl: impl, Model: model, Index: idx})
+		fwFail(ctx, hx.Failure{Kind: kind, Class: class, Detail: detail, Case: cs, Impl: impl, Model: model, Index: idx})
 	}
 	if base == nil {
 		b := cs.fwCase
@@ -341,7 +341,7 @@ func c09Check(ctx *Ctx, pl *fwPool, idx int, cs c09Case, base *c09Base) {
 	// ---------------- impl vs property oracle ----------------
 	if out.Crash != "" {
 		nontrivial = true
-		fail("property-fails", c09KnownClass(cs, "crash", out.Crash), "the gateway process CRASHED under this fault plan: "+out.Crash, out.Crash, nil)
+		fail("property-fails", c09KnownClass(cs, "crash", out.Crash), "CRASH of the gateway process under this fault plan: "+crashShort(out.Crash), out.Crash, nil)
 		c09ModelOnCrash(ctx, pl, idx, cs, base, out.Crash)
 		return
 	}
@@ -478,6 +478,12 @@ func c09Check(ctx *Ctx, pl *fwPool, idx int, cs c09Case, base *c09Base) {
 	}
 }
 
+// crashShort puts the panic message first (the part that distinguishes one defect from another)
+func crashShort(c string) string {
+	c = strings.TrimPrefix(c, "panic: ")
+	return c
+}
+
 func jsonOf(s string) interface{} {
 	v, err := decodeNum(s)
 	if err != nil {
@@ -519,7 +525,7 @@ func c09ModelOnCrash(ctx *Ctx, pl *fwPool, idx int, cs c09Case, base *c09Base, c
 		}
 		ctx.Rep.Traces++
 		if oc, _ := m["outcome"].(string); oc != "panic" {
-			ctx.Rep.Fail(hx.Failure{Kind: "model-mismatch", Detail: "the gateway crashed (" + crash + ") where the model predicts " + oc, Case: cs, Model: m, Index: idx})
+			fwFail(ctx, hx.Failure{Kind: "model-mismatch", Detail: "the gateway crashed (" + crash + ") where the model predicts " + oc, Case: cs, Model: m, Index: idx})
 		} else {
 			ctx.Rep.Count("model outcome: panic (agrees with the crash)")
 		}
@@ -744,7 +750,7 @@ func runC09(ctx *Ctx) error {
 	// ---- enumeration over generated federations / operations
 	nOps := 36
 	if ctx.Thorough() {
-		nOps = 400
+		nOps = 150
 	}
 	ops, tries := 0, 0
 	for ops < nOps && tries < nOps*30 {
@@ -890,7 +896,7 @@ func c09Isolation(ctx *Ctx, pl *fwPool, idx *int, o *c09Op, op2 *fed.Op, r *hx.R
 // c09CheckBatch: the batch variant of the oracle (no crash / hang, well-formed array, the other operation unaffected).
 func c09CheckBatch(ctx *Ctx, pl *fwPool, idx int, cs c09Case) {
 	fail := func(kind, class, detail string, impl, model interface{}) {
-		ctx.Rep.Fail(hx.Failure{Kind: kind, Class: class, Detail: detail, Case: cs, Impl: impl, Model: model, Index: idx})
+		fwFail(ctx, hx.Failure{Kind: kind, Class: class, Detail: detail, Case: cs, Impl: impl, Model: model, Index: idx})
 	}
 	out, err := pl.Run(cs.fwCase)
 	if err != nil {
@@ -906,7 +912,7 @@ func c09CheckBatch(ctx *Ctx, pl *fwPool, idx int, cs c09Case) {
 	ctx.Rep.Case(cs.key(), fired || out.Crash != "")
 	ctx.Rep.Count("fault in a client batch: " + cs.Faults[0].Kind)
 	if out.Crash != "" {
-		fail("property-fails", c09KnownClass(cs, "crash", out.Crash), "the gateway process CRASHED under this fault plan: "+out.Crash, out.Crash, nil)
+		fail("property-fails", c09KnownClass(cs, "crash", out.Crash), "CRASH of the gateway process under this fault plan: "+crashShort(out.Crash), out.Crash, nil)
 		return
 	}
 	if out.Timeout || out.Res.Hang || out.Res.Panic != "" {
